@@ -664,8 +664,11 @@ tcptran_ep_close(void *arg)
 	NNI_LIST_FOREACH (&ep->negopipes, p) {
 		nni_pipe_close(p->npipe);
 	}
-	NNI_LIST_FOREACH (&ep->waitpipes, p) {
+	while ((p = nni_list_first(&ep->waitpipes)) != NULL) {
+		// nobody else will take these: drop the creator's hold too
+		nni_list_remove(&ep->waitpipes, p);
 		nni_pipe_close(p->npipe);
+		nni_pipe_rele(p->npipe);
 	}
 	nni_mtx_unlock(&ep->mtx);
 }
